@@ -16,6 +16,8 @@ import (
 	"time"
 
 	"github.com/datastax/cql-proxy/proxy"
+	"github.com/datastax/go-cassandra-native-protocol/datatype"
+	"github.com/datastax/go-cassandra-native-protocol/frame"
 	"github.com/datastax/go-cassandra-native-protocol/message"
 	"github.com/datastax/go-cassandra-native-protocol/primitive"
 
@@ -352,6 +354,57 @@ func c12Config(c *Ctx, idx int) {
 			r.Sample(map[string]interface{}{"config": cfgKey, "cell": desc.Key(), "consistency": clNames[spec.Consistency], "rewrite_expected": rewrite})
 		}
 	}
+	// a SELECT prepared a moment ago is still a SELECT: PREPARE a statement nobody has seen (large result metadata), EXECUTE
+	// it the moment the reply arrives with a consistency inside the set; it must reach the backend unmodified
+	if len(set) > 0 {
+		wide := make([]*message.ColumnMetadata, 1500)
+		for i := range wide {
+			wide[i] = &message.ColumnMetadata{Keyspace: "ks1", Table: "t", Name: fmt.Sprintf("column_number_%d", i), Type: datatype.Varchar}
+		}
+		rp.cluster.SetScript(func(a *fakecass.Arrival) fakecass.Outcome {
+			if a.OpCode == primitive.OpCodePrepare && strings.Contains(a.Query, "fresh_") {
+				pr := fakecass.PreparedResultFor("", a.Query, a.Header.Version)
+				pr.ResultMetadata = &message.RowsMetadata{ColumnCount: int32(len(wide)), Columns: wide}
+				return fakecass.Outcome{Name: "Prepared", Msg: pr}
+			}
+			return fakecass.Outcome{}
+		})
+		cl, err := rawcql.Dial(rp.addr, primitive.ProtocolVersion4, rp.log)
+		if err == nil && cl.Handshake("", 10*time.Second) == nil {
+			cons := set[rng.Intn(len(set))]
+			for j := 0; j < 25; j++ {
+				q := fmt.Sprintf("SELECT * FROM ks1.fresh_%d_%d WHERE k = ?", idx, j)
+				st := int16(1000 + 2*j)
+				pf, err := cl.Call(st, &message.Prepare{Query: q}, 10*time.Second)
+				if err != nil || pf.OpCode != primitive.OpCodeResult {
+					r.Inconc("c12: fresh PREPARE failed")
+					break
+				}
+				tok := NewTok()
+				mark := rp.log.Len()
+				ex := &message.Execute{QueryId: fakecass.PreparedID("", q), Options: &message.QueryOptions{Consistency: cons, PositionalValues: []*primitive.Value{primitive.NewValue([]byte(tok))}}}
+				if _, err := cl.CallF(frame.NewFrame(primitive.ProtocolVersion4, st+1, ex), 10*time.Second); err != nil {
+					r.Inconc("c12: fresh EXECUTE got no reply")
+					break
+				}
+				r.Obs("fresh_prepared_select_executes", 1)
+				r.Eval(1)
+				for _, e := range rp.log.Snapshot()[mark:] {
+					if e.Src == "backend" && e.K == "recv" && e.Tok == tok {
+						// EXECUTE body: [short bytes id][short consistency]...
+						if len(e.Body) >= 20 {
+							got := primitive.ConsistencyLevel(binary.BigEndian.Uint16(e.Body[18:20]))
+							if got != cons {
+								r.Violate(mon.Violation{Signature: "C12/consistency-rewritten-but-should-not/fresh-prepared-select", Detail: fmt.Sprintf("config %s: EXECUTE of a SELECT prepared through the proxy a moment earlier was sent with consistency %s and reached the backend with %s: the proxy did not know yet that the id is a SELECT", cfgKey, clNames[cons], clNames[got]), Scenario: map[string]interface{}{"kind": "c12", "idx": idx, "config": cfgKey}})
+							}
+						}
+					}
+				}
+			}
+			cl.Close()
+		}
+		r.NonTrivial("fresh-prepared-select/" + cfgKey)
+	}
 	r.Obs("configs", 1)
 }
 
@@ -367,7 +420,7 @@ func withCons(b []byte, off int, cons uint16) []byte {
 func runC12(c *Ctx) {
 	r := c.R
 	r.Assume("EXECUTE ids are prepared through the proxy first, so it knows which ids are SELECTs; the compressed header bit may differ after a rewrite (the body is re-encoded), bodies are compared uncompressed")
-	r.Require("frames_compared", "rewrite=true", "rewrite=false", "sentinels_ok")
+	r.Require("frames_compared", "rewrite=true", "rewrite=false", "sentinels_ok", "fresh_prepared_select_executes")
 	n := c.Pick(24, 160)
 	for i := 0; i < n; i++ {
 		if c.Replay != nil && c.Replay["kind"] == "c12" {
